@@ -30,6 +30,9 @@ func c06Offers() []c06Offer {
 		o("[]string", "literal", `[]string{"a"}`, false), o("[]string", "variable", "vss", true), o("[]string", "call", "fss()", false),
 		o("void", "call", "fv()", false),
 		o("multi", "call", "f2()", false),
+		// the same without a single value behind parentheses, and a program call (three values: output, error output, status)
+		o("multi-grouped", "grouped-multi-call", "(f2())", false), o("multi-grouped", "twice-grouped-multi-call", "((f2()))", false), o("ill", "grouped-void-call", "(fv())", false),
+		o("multi3", "program-call", `@echo("x")`, false), o("multi3-grouped", "grouped-program-call", `(@echo("x"))`, false),
 		// expressions that are ill-typed in themselves (type tag "ill"): no position accepts them, whatever
 		// type the broken operator would have produced
 		o("ill", "not-int", "!5", false), o("ill", "not-not-int", "!!5", false), o("ill", "not-not-string", "!!vs", false), o("ill", "not-not-not-int", "!!!vi", false),
@@ -161,7 +164,7 @@ func c06Positions() []c06Pos {
 	add(c06Pos{name: "define-multi.from-call", stmt: "d1, d2 := %H\nprint(len(vs))", accept: []string{"multi"}})
 	add(c06Pos{name: "define-multi-typed.from-call", stmt: "var d1, d2 int = %H\nprint(len(vs))", accept: []string{"multi"}})
 	add(c06Pos{name: "define-multi-typed-string.from-call", stmt: "var d1, d2 string = %H\nprint(len(vs))", accept: nil})
-	add(c06Pos{name: "define-three.from-call", stmt: "d1, d2, d3 := %H\nprint(len(vs))", accept: nil})
+	add(c06Pos{name: "define-three.from-call", stmt: "d1, d2, d3 := %H\nprint(len(vs))", accept: []string{"multi3"}})
 	// assignments
 	add(c06Pos{name: "assign:int", stmt: "vi = %H", accept: []string{"int"}})
 	add(c06Pos{name: "assign:bool", stmt: "vb = %H", accept: []string{"bool"}})
@@ -340,10 +343,20 @@ func C06() int {
 				skipped++
 				continue
 			}
+			// parentheses around a call with several values: Go accepts them where the bare call is accepted, the
+			// property does not say; everywhere else the offer is as wrong as the bare call
+			if (o.typ == "multi-grouped" && (contains(p.accept, "multi") || (p.skip != nil && p.skip(c06Offer{typ: "multi"})))) || (o.typ == "multi3-grouped" && contains(p.accept, "multi3")) {
+				skipped++
+				continue
+			}
+			if o.typ == "multi3" && p.skip != nil && p.skip(c06Offer{typ: "multi"}) {
+				skipped++
+				continue
+			}
 			cn := ctxNames
 			if p.noCtx {
 				cn = []string{"top"}
-			} else if o.typ == "ill" {
+			} else if o.typ == "ill" || strings.HasPrefix(o.typ, "multi") && o.typ != "multi" {
 				cn = []string{"top", "function"}
 			}
 			for _, c := range cn {
